@@ -160,3 +160,111 @@ def run_srcs(chk, results):
                 nbad += 1; chk.notes.setdefault('failing_argv', []).append(r['argv'])
                 chk.tie_broken('correspondence', 'srcs', 're-read sources of %r: real %r, model reader %r' % (r['argv'], o['reread'], mr))
     chk.stages['srcs'] = dict(command_lines=len(items), compared=ncmp, disagreements=nbad, forms=forms)
+
+
+# ------------------------------------------------------------------ stage media: --medium / --boundary / --radial-* against Model/MediaOpts.v
+MEDIA_HEADER = '''From Coq Require Import ZArith List Bool.
+Import ListNotations.
+From PM Require Import Model.MediaOpts.
+Set Printing Depth 10000000. Set Printing Width 1000000.
+Open Scope Z_scope.
+Definition enc_tok (o : opt) : list Z :=
+  match o with OMedium v => 0 :: v | OBoundary c => [1; if c then 1 else 0] | ORadCount n => [2; Z.of_nat n] | ORadRadius r => [3; r] end.
+Definition enc_env (e : env) : list Z :=
+  [Z.of_nat (length (e_media e)); if e_circ e then 1 else 0] ++ (match e_rad e with Some (n, r) => [Z.of_nat n; r] | None => [0; 0] end)
+  ++ flat_map (fun m => [mp m; mc m; mh m; mcoord m]) (e_media e).
+Definition media_case (os : list opt) : list (list Z) :=
+  match read os with None => [[-1]] | Some e => [1] :: enc_env e :: map enc_tok (write e) end.
+'''
+def gen_media_opts(rng):
+    """(option texts, model tokens): mostly valid media of 0-4 layers, the outermost one with or without a coordinate of its own,
+    boundary / radial options present, absent, repeated; a malformed stream (2 or 5 values, radials without radius or on the
+    only medium)"""
+    n = rng.choice([0, 1, 1, 2, 2, 2, 3, 3, 4])
+    toks = []
+    x = 0
+    if n == 1 and rng.random() < 0.3:
+        toks.append([0, 0, 0, 0])            # perfect ground
+    else:
+        for i in range(n):
+            x += rng.randint(2, 30)
+            v = [rng.choice([3, 5, 13, 20, 80]), rng.randint(1, 9), 0 if i == 0 else -rng.randint(0, 5)]
+            if (i < n - 1 and rng.random() < 0.9) or (i == n - 1 and rng.random() < 0.35):
+                v.append(x if rng.random() < 0.9 else 1000000)
+            if rng.random() < 0.04:
+                v = v[:2] if rng.random() < 0.5 else (v + [7, 7])[:5]
+            toks.append([0] + v)
+    extra = []
+    for _ in range(rng.choice([0, 1, 1, 2])):
+        extra.append([1, rng.randint(0, 1)])
+    u = rng.random()
+    if u < 0.35:
+        extra.append([2, rng.choice([0, 8, 16, 36])])
+        if rng.random() < 0.85: extra.append([3, rng.randint(1, 4)])
+    elif u < 0.4:
+        extra.append([3, 2])
+    # the options may come in any order on the command line
+    allt = toks + extra
+    if rng.random() < 0.5:
+        med = [t for t in allt if t[0] == 0]; oth = [t for t in allt if t[0] != 0]; rng.shuffle(oth)
+        allt = []
+        for t in med:
+            allt.append(t)
+            while oth and rng.random() < 0.5: allt.append(oth.pop())
+        allt = (oth + allt) if rng.random() < 0.5 else (allt + oth)
+    def text(t):
+        if t[0] == 0: return '--medium=' + ','.join(str(v) for v in t[1:])
+        if t[0] == 1: return '--boundary=' + ('circular' if t[1] else 'linear')
+        if t[0] == 2: return '--radial-count=%d' % t[1]
+        return '--radial-radius=%g' % (t[1] / 1000)
+    return [text(t) for t in allt], allt
+
+def run_media(chk, rng, n):
+    gens = [gen_media_opts(rng) for _ in range(n)]
+    cases = [dict(id=i, opts=o) for i, (o, t) in enumerate(gens)]
+    shards = [cases[k::NCPU] for k in range(NCPU) if cases[k::NCPU]]
+    res = run_workers('cmd.media', [dict(cases=s) for s in shards])
+    real = {}
+    for ok, r in res:
+        if not ok:
+            chk.tie_broken('correspondence', 'media', 'real code could not be run: ' + str(r)[-600:]); continue
+        for x in r['results']:
+            real[x['id']] = x
+    if not vo_ok('Model/MediaOpts.v'):
+        chk.tie_broken('correspondence', 'media', 'model (Model/MediaOpts.v) does not compile'); return
+    def ctok(t):
+        if t[0] == 0: return 'OMedium %s' % coq_list(['(%d)' % v for v in t[1:]])
+        if t[0] == 1: return 'OBoundary %s' % ('true' if t[1] else 'false')
+        if t[0] == 2: return 'ORadCount %d%%nat' % t[1]
+        return 'ORadRadius (%d)' % t[1]
+    body = MEDIA_HEADER + '\n'.join('Eval vm_compute in (media_case %s).' % coq_list([ctok(t) for t in tk]) for o, tk in gens) + '\n'
+    rc, out = coq_eval('media_%d' % os.getpid(), body)
+    blocks = re.findall(r'(?s)=\s*(\[.*?\])\s*:\s*list \(list Z\)', out)
+    if rc != 0 or len(blocks) != len(gens):
+        chk.tie_broken('correspondence', 'media', 'model evaluation failed: ' + out[-600:]); return
+    nbad = nrej = 0; shapes = {}
+    for c, (o, tk), b in zip(cases, gens, blocks):
+        rows = [[int(x) for x in re.findall(r'-?\d+', row)] for row in re.findall(r'\[([^\[\]]*)\]', b)]
+        rr = real.get(c['id'])
+        if rr is None: continue
+        nm = sum(1 for t in tk if t[0] == 0)
+        shapes[nm] = shapes.get(nm, 0) + 1
+        chk.add_case('media:' + json.dumps(o), nm >= 2, sample=dict(stage='media', media=nm))
+        if 'error' in rr:
+            nbad += 1; chk.tie_broken('correspondence', 'media', '%r: %s' % (o, rr['error']['exception'])); continue
+        if rows == [[-1]]:
+            nrej += 1
+            if 'rejected' not in rr:
+                nbad += 1; chk.tie_broken('correspondence', 'media', 'the model reader rejects %r, the program accepts it' % (o,))
+            continue
+        if 'rejected' in rr:
+            nbad += 1; chk.tie_broken('correspondence', 'media', 'the program rejects %r (%s), the model reader accepts it' % (o, rr['rejected'][:80])); continue
+        if rr.get('rt'):
+            chk.violation(dict(stage='media', what='media round trip'), rr['rt'], dict(argv=['-w', '4,0,0,1,0,0,3,0.001', '--excitation-pulse=2'] + o))
+        menv, mw = rows[1], rows[2:]
+        if rr['env'] != menv:
+            nbad += 1; chk.tie_broken('correspondence', 'media', 'media built from %r: real %r, model reader %r' % (o, rr['env'], menv))
+        elif rr['written'] != mw:
+            nbad += 1; chk.tie_broken('correspondence', 'media', 'media options written for %r: real %r, model writer %r' % (o, rr['written'], mw))
+            chk.notes.setdefault('failing_argv', []).append(['-w', '4,0,0,1,0,0,3,0.001', '--excitation-pulse=2'] + o)
+    chk.stages['media'] = dict(command_lines=len(gens), rejected_by_both=nrej, disagreements=nbad, media_count=shapes)
